@@ -1,6 +1,7 @@
 ----------------------------- MODULE Gen_Rebuild -----------------------------
 (* Stage (B) for C07: TLC enumerates source-archive classes x rebuild options.                    *)
-(*   source : format version 1..4 x (attributes) present x an empty file present; every source    *)
+(*   source : format version 1..4 x (attributes) present x an empty file present x a weak          *)
+(*            (signature) file (72 bytes, listed) present; every source                            *)
 (*            carries a plain compressed file, a raw one, an encrypted one, an encrypted+fix-key  *)
 (*            one, a file larger than a sector, and a generated (listfile)                        *)
 (*   options: target version (0 = preserve) x compression override x sector-size override x      *)
@@ -11,7 +12,7 @@
 EXTENDS Integers, Sequences, SequencesExt, FiniteSets, Json, IOUtils, TLC
 
 Thorough == IOEnv.VERIF_TIER = "thorough"
-Sources == {[ver |-> v, at |-> a, empty |-> e] : v \in 1..4, a \in BOOLEAN, e \in BOOLEAN}
+Sources == {[ver |-> v, at |-> a, empty |-> e, sig |-> g] : v \in 1..4, a \in BOOLEAN, e \in BOOLEAN, g \in BOOLEAN}
 Opt(t, c, b, se, ss, vf, lo) == [target |-> t, comp |-> c, bs |-> b, skipEnc |-> se, skipSig |-> ss, verify |-> vf, listOnly |-> lo]
 Targets == 0..4
 Comps   == {"keep", "none", "zlib", "bzip2"}
@@ -21,9 +22,10 @@ AllOpts == {Opt(t, c, b, se, ss, vf, lo) : t \in Targets, c \in Comps, b \in Siz
 Dims == {"target", "comp", "bs", "skipEnc", "skipSig", "verify", "listOnly"}
 Diff(o) == {d \in Dims : o[d] # Default[d]}
 QuickOpts == {o \in AllOpts : \/ Cardinality(Diff(o)) <= 1
-                              \/ Diff(o) \in {{"target", "comp"}, {"target", "verify"}, {"skipEnc", "verify"}, {"comp", "bs"}, {"comp", "verify"}}}
+                              \/ Diff(o) \in {{"target", "comp"}, {"target", "verify"}, {"skipEnc", "verify"}, {"comp", "bs"}, {"comp", "verify"},
+                                              {"skipSig", "verify"}, {"skipSig", "skipEnc"}, {"skipSig", "target"}}}
 \* thorough drops only combinations that add nothing: list_only ignores every other option but the filters
-ThoroughOpts == {o \in AllOpts : (o.listOnly => (o.target = 0 /\ o.comp = "keep" /\ o.bs = -1 /\ ~o.verify)) /\ (~o.skipSig => Cardinality(Diff(o)) <= 2)}
+ThoroughOpts == {o \in AllOpts : (o.listOnly => (o.target = 0 /\ o.comp = "keep" /\ o.bs = -1 /\ ~o.verify)) /\ (~o.skipSig => Cardinality(Diff(o)) <= 3)}
 Opts == IF Thorough THEN ThoroughOpts ELSE QuickOpts
 Cases == SetToSeq({[src |-> s, opts |-> o] : s \in Sources, o \in Opts})
 ASSUME ndJsonSerialize(IOEnv.CASES, Cases)
